@@ -338,6 +338,82 @@ def ob_bary_relabel(kind, rot):
     return held("%d dofs; %s" % (r["dofs"][0], {k: "%.1e" % v for k, v in r.items() if isinstance(v, float)}))
 
 
+def replay_open_relabel(gridname):
+    """Open grids, P1 with default options (dofs at the interior vertices only): renumbering vertices and elements and rotating the local vertex order (several rotation
+    patterns) must select the same vertices (by coordinates) as dofs and give the same mass and hypersingular matrices after matching the dofs through their vertices."""
+    import bempp_cl.api as api
+    from bempp_cl.api.operators.boundary import sparse
+
+    warnings.simplefilter("ignore")
+    v, e = {"screen2": lambda: SG.screen(2), "screen3": lambda: SG.screen(3), "fringe": _fringe_screen}[gridname]()
+    v, e = np.asarray(v, dtype=float), np.asarray(e)
+    par = Z.params(4, 6)
+    g = SG.make_grid(v, e)
+
+    def dof_vertices(sp, grid):
+        out = []
+        for d in range(sp.global_dof_count):
+            vs = {int(grid.elements[i, E]) for E, i in sp.global2local[d]}
+            out.append(tuple(np.round(grid.vertices[:, vs.pop()], 9)) if len(vs) == 1 else None)
+        return out
+
+    sa = api.function_space(g, "P", 1)
+    va = dof_vertices(sa, g)
+    Ma = Z.dense(sparse.identity(sa, sa, sa, parameters=par))
+    Wa = Z.dense(Z.boundary_operator("laplace_hyp", sa, sa, sa, par))
+    failing = []
+    rng = np.random.RandomState(4)
+    import itertools
+
+    # all nine affine rotation patterns r_j = (a j + b) mod 3 of the local vertex order; every third one combined with a renumbering of vertices and elements
+    for pattern, (ra, rb) in enumerate(itertools.product(range(3), range(3))):
+        renumber = pattern % 3 == 2
+        pv = rng.permutation(v.shape[1]) if renumber else np.arange(v.shape[1])
+        pe = rng.permutation(e.shape[1]) if renumber else np.arange(e.shape[1])
+        newv = np.empty_like(v)
+        newv[:, pv] = v
+        el = np.array([np.roll(e[:, j], (ra * j + rb) % 3) for j in range(e.shape[1])]).T
+        el = pv[el[:, pe].astype(int)]
+        g2 = SG.make_grid(newv, el)
+        sb = api.function_space(g2, "P", 1)
+        vb = dof_vertices(sb, g2)
+        if None in va or None in vb or sorted(va) != sorted(vb):
+            failing.append("rotation pattern %d: dofs at %d vertices, the original numbering selects %d (sets differ: %s)" % (pattern, len(vb), len(va), sorted(set(map(str, vb)) ^ set(map(str, va)))[:3]))
+            continue
+        perm = [vb.index(x) for x in va]
+        Mb = Z.dense(sparse.identity(sb, sb, sb, parameters=par))[np.ix_(perm, perm)]
+        em = Z.relerr(Mb, Ma)
+        ew = Z.relerr(Z.dense(Z.boundary_operator("laplace_hyp", sb, sb, sb, par))[np.ix_(perm, perm)], Wa) if pattern % 4 == 1 else 0.0
+        if em > 1e-12 or ew > 1e-4:
+            failing.append("rotation pattern %d: mass matrix differs by %.2e, hypersingular by %.2e" % (pattern, em, ew))
+    return {"violates": bool(failing), "failing": failing}
+
+
+def _fringe_screen():
+    """3 x 2 screen with a sawtooth fringe: extra triangles on the upper rim whose two free sides are both on the boundary, neighbouring ears meeting in rim vertices"""
+    v, e = SG.screen(3)
+    v, e = np.asarray(v, dtype=float), np.asarray(e)
+    top = [j for j in range(v.shape[1]) if abs(v[1, j] - v[1].max()) < 1e-12]
+    top.sort(key=lambda j: v[0, j])
+    newv, newe = [v], [e]
+    nv = v.shape[1]
+    for a, b in zip(top[:-1], top[1:]):
+        apex = 0.5 * (v[:, a] + v[:, b]) + np.array([0.02, 0.25, 0.07])
+        newv.append(apex[:, None])
+        newe.append(np.array([[b], [a], [nv]]))
+        nv += 1
+    return np.hstack(newv), np.hstack(newe)
+
+
+def ob_open_relabel(gridname):
+    """bounded: see replay_open_relabel"""
+    r = replay_open_relabel(gridname)
+    if r["violates"]:
+        return violated("P1 on the open grid %s is not equivariant under renumbering / local rotation: %s" % (gridname, r["failing"][:2]), witness={"grid": gridname, "failing": r["failing"]},
+                        signature="open-relabel/%s" % gridname, replay={"callable": "checks.c03:replay_open_relabel", "kwargs": {"gridname": gridname}, "confirmed": True, "result": r})
+    return held("9 rotation patterns (3 with renumbering): same dof vertices, mass 1e-12, hypersingular 1e-4 (2 patterns)")
+
+
 def ob_extreme_scales(key, mode):
     """bounded (floats): the real kernel function agrees with its closed form (1e-8) for point sets scaled by 1e-9 .. 1e6 and translated 1e5 diameters away from
     the origin, with the wavenumber scaled inversely: absolute tolerances, clamps and numerically unstable (cancelling) distance formulas inside a kernel are
@@ -503,6 +579,8 @@ def main():
             for p1_ in PERMS:
                 run.add("pipeline.singular-remap[pair share=%d %s/%s DP1xDP0]" % (share, p0, p1_), "post", PL.ob_pipeline, "pair:%d:%s:%s" % (share, p0, p1_), dp1, ("DP", 0, {}))
     run.add("space._process_segments", "bounded", ob_process_segments)
+    for gname in ("screen2", "fringe") + (("screen3",) if thorough else ()):
+        run.add("matrix.relabel.open-grid.P1[%s]" % gname, "bounded", ob_open_relabel, gname)
     for kind in (("DUAL", 0), ("DUAL", 1), ("BC", 0), ("RBC", 0)):
         for rot in ((0, 1, 2) if thorough or kind == ("DUAL", 0) else (1,)):
             run.add("matrix.relabel.barycentric[%s%d rot=%d]" % (kind[0], kind[1], rot), "bounded", ob_bary_relabel, kind, rot)
